@@ -15,15 +15,45 @@ class Ctx:
         s._leaves = {}
         s._fields = {}
 
+    # ---------------------------------------------------------------- modules
+    LEGACY = ('core', 'io', 'util', 'workers', 'cmdline', 'cmdline_util', 'signal', 'plotting', 'dataset', 'exceptions', '__init__')
+
+    def code_mods(s):
+        """the modules whole-package censuses run over: every module of the package (also ones added later) but the data,
+        plotting and exception modules"""
+        return [m for m in sorted(s.model.mods) if m not in ('plotting', 'dataset', 'exceptions', '__init__')]
+
+    def in_module(s, where, legacy):
+        """does a site (module name or 'auditok/<mod>.py:line') belong to the rules written for module `legacy`?  Code in a
+        module that did not exist when the rules were written (a helper module things were moved to) belongs to all of them."""
+        m = where
+        if where.startswith('auditok/'):
+            m = where[len('auditok/'):].split('.py')[0]
+        return m == legacy or m not in s.LEGACY
+
     # ---------------------------------------------------------------- lookup
     def fn(s, mod, qual, required=True):
+        """function / method by dotted name as seen from module `mod` -- followed to where it now lives: another module it
+        was moved to (imported back or not), a base class or mixin (MRO), a static method behind a module-level alias"""
         f = s.repo.func(mod, qual)
+        if f is None:
+            parts = qual.split('.')
+            h = s.model.home(mod, parts[0])
+            if h is not None:
+                if len(parts) == 1 and isinstance(h[1], ast.FunctionDef):
+                    f = h[1]
+                elif len(parts) == 2 and isinstance(h[1], ast.ClassDef):
+                    r = s.model.find_method(h[0], h[1], parts[1])
+                    f = r[2] if r else None
         if f is None and required:
             raise AnalysisError('function %s.%s not found (anchor vanished)' % (mod, qual))
         return f
 
     def cls(s, mod, name, required=True):
         c = s.model.mods.get(mod, {}).get('classes', {}).get(name)
+        if c is None:
+            h = s.model.home(mod, name)
+            c = h[1] if h and isinstance(h[1], ast.ClassDef) else None
         if c is None and required:
             raise AnalysisError('class %s.%s not found (anchor vanished)' % (mod, name))
         return c
@@ -48,24 +78,28 @@ class Ctx:
         if fn is None:
             return None
         try:
-            lv = s.sx.run(mod, fn, cls=cls)
+            lv = s.sx.run(getattr(fn, '_home', mod), fn, cls=cls)
         except TooManyPaths as exc:
             raise AnalysisError('%s.%s: %s' % (mod, qual, exc))
         lv = split_ites(lv)          # canonical form: a conditional expression in a value / effect is two paths
         s._leaves[key] = lv
         return lv
 
+    def leaves_dyn(s, r):
+        """leaves of an MRO-resolved method (Model.find_method result) as it runs for the class the lookup started from"""
+        return s.leaves_of(r[0], getattr(r, 'start', r[1]), r[2])
+
     def leaves_of(s, mod, cls, fn):
-        key = ('node', id(fn))
+        key = ('node', id(fn), id(cls))
         if key not in s._leaves:
             try:
-                s._leaves[key] = split_ites(s.sx.run(mod, fn, cls=cls))
+                s._leaves[key] = split_ites(s.sx.run(getattr(fn, '_home', mod), fn, cls=cls))
             except TooManyPaths as exc:
                 raise AnalysisError('%s: %s' % (fn.name, exc))
         return s._leaves[key]
 
     def where(s, mod, node):
-        return 'auditok/%s.py:%s' % (mod, getattr(node, 'lineno', '?'))
+        return 'auditok/%s.py:%s' % (_home_of(node, mod), getattr(node, 'lineno', '?'))
 
     # ---------------------------------------------------------------- fields
     def field_defs(s, mod, clsname):
@@ -75,9 +109,22 @@ class Ctx:
             return s._fields[key]
         c = s.cls(mod, clsname)
         out = {}
-        for fn in c.body:
-            if not isinstance(fn, ast.FunctionDef):
-                continue
+        # the methods that run for instances of the class: its own and the ones it inherits, unoverridden, from base classes of
+        # the package (a private base class or mixin the class was split into); a base method the class overrides runs only
+        # through super() / an explicit Base.m(self) call, which is inlined where the rules do not refer to it
+        fns, seen_names = [], set()
+        try:
+            chain = s.model.mro(mod, c)
+        except ValueError:
+            chain = [(mod, c)]
+        for m_, c_ in chain:
+            for fn in c_.body:
+                if isinstance(fn, ast.FunctionDef):
+                    key_ = (fn.name, tuple(ast.unparse(d) for d in fn.decorator_list if isinstance(d, ast.Attribute)))
+                    if c_ is c or key_ not in seen_names:
+                        fns.append(fn)
+                    seen_names.add(key_)
+        for fn in fns:
             for l in s.leaves_of(mod, c, fn):
                 for e in l.effects:
                     if e[0] == 'store' and e[1][0] == 'attr' and e[1][1] == ('self',):
@@ -87,6 +134,19 @@ class Ctx:
                             lst.append(rec)
         s._fields[key] = out
         return out
+
+
+def _home_of(node, mod):
+    """module of the definition an AST node sits in (a moved helper reports its own file)"""
+    n = node
+    for _ in range(60):
+        if n is None:
+            break
+        h = getattr(n, '_home', None)
+        if h:
+            return h
+        n = getattr(n, '_parent', None)
+    return mod
 
 
 # -------------------------------------------------------------------- guards
@@ -375,7 +435,7 @@ def self_field_exprs(cx, mod, clsname):
         r = cx.model.find_method(mod, c, mname)
         if r is None or r[1] is not c:
             continue
-        lv = cx.leaves_of(*r)
+        lv = cx.leaves_dyn(r)
         ok_leaves = [l for l in lv if l.outcome != 'raise']
         for l in ok_leaves:
             for e in l.effects:
